@@ -26,7 +26,7 @@ LEVEL_TEXT = ('Randomised exploration: each executed read / statement entry of e
               'analysis result computed by the current tree; the fixed-point clause is checked on every graph.')
 LEVEL_NOTE = 'Trusted: CPython executing the instrumented copy; vf/instrument.py event placement; the mapping write site -> gen_map entry.'
 
-GEN = {'unbound_reads': False, 'excl': ('no_try_else', 'no_for_target_rebind')}
+GEN = {'unbound_reads': False, 'excl': ('no_for_target_rebind',)}
 
 
 def budget(tier):
